@@ -5,6 +5,9 @@ using gmlc::concurrency::TriggerVariable;
 
 struct Stamps {
     std::atomic<uint64_t> act_call{0}, act_ret{0}, trig_call{0}, trig_ret{0}, reset_call{0}, reset_ret{0};
+    // order of critical sections: sequence number of the event's acquisition of the mutex the waiters re-check under
+    // (the shim numbers the acquisitions of a mutex while it is held)
+    std::atomic<uint64_t> act_lock_seq{0}, trig_lock_seq{0};
 };
 static uint64_t first_nonzero_min(uint64_t a, uint64_t b)
 {
@@ -46,6 +49,7 @@ static void phase(long ridx, TriggerVariable& tv, bool starts_active, uint64_t& 
             for (int i = 0; i < act_delay; i++) vrf::hyield();
             st.act_call.store(vrf::now(), std::memory_order_relaxed);
             bool ok = tv.activate();
+            st.act_lock_seq.store(vrf::ctx().last_lock_seq, std::memory_order_relaxed);  // activate()'s last acquisition: the activation mutex
             st.act_ret.store(vrf::now(), std::memory_order_relaxed);
             if (!ok) vrf::violation("oracle:activate_on_inactive_variable_returned_false", "{}");
         });
@@ -67,6 +71,11 @@ static void phase(long ridx, TriggerVariable& tv, bool starts_active, uint64_t& 
                 timed_false.fetch_add(1, std::memory_order_relaxed);
                 if (vrf::clock_is_sync() && ar != 0 && ar < call)
                     vrf::violation("oracle:timed_activation_wait_false_although_activated_before_the_call", "{}");
+                // "false only if the event had not happened when it gave up": the waiter gives up under the activation mutex; if
+                // activate()'s critical section on that mutex came before the waiter's last one, the waiter must have seen it
+                uint64_t es = st.act_lock_seq.load(std::memory_order_relaxed);
+                if (es != 0 && es < vrf::ctx().last_lock_seq)
+                    vrf::violation("oracle:timed_activation_wait_false_although_activated_before_it_gave_up", "{\"form\":" + std::to_string(form) + "}");
             }
             cvw.fetch_add(vrf::stats().cv_waits - before, std::memory_order_relaxed);
             actw_done.fetch_add(1, std::memory_order_relaxed);
@@ -97,6 +106,9 @@ static void phase(long ridx, TriggerVariable& tv, bool starts_active, uint64_t& 
                 if (form == 0) vrf::violation("oracle:untimed_wait_returned_false", "{}");
                 if (vrf::clock_is_sync() && ev_ret != 0 && ev_ret < call)
                     vrf::violation("oracle:timed_wait_false_although_triggered_before_the_call", "{}");
+                uint64_t es = st.trig_lock_seq.load(std::memory_order_relaxed);
+                if (es != 0 && es < vrf::ctx().last_lock_seq)
+                    vrf::violation("oracle:timed_wait_false_although_triggered_before_it_gave_up", "{\"form\":" + std::to_string(form) + "}");
             }
             cvw.fetch_add(vrf::stats().cv_waits - before, std::memory_order_relaxed);
         });
@@ -107,6 +119,7 @@ static void phase(long ridx, TriggerVariable& tv, bool starts_active, uint64_t& 
         if (finisher == 0 || finisher == 2) {
             st.trig_call.store(vrf::now(), std::memory_order_relaxed);
             bool ok = tv.trigger();
+            st.trig_lock_seq.store(vrf::ctx().last_lock_seq, std::memory_order_relaxed);  // trigger()'s only acquisition: the trigger mutex
             st.trig_ret.store(vrf::now(), std::memory_order_relaxed);
             if (!ok) vrf::violation("oracle:trigger_on_active_variable_returned_false", "{}");
             if (!tv.isTriggered()) vrf::violation("oracle:not_triggered_after_trigger_returned", "{}");
